@@ -17,14 +17,17 @@ cursor.
 Does NOT require (never flagged):
 * that a completion is offered at all (an empty completion list inserts nothing);
 * any particular quoting style, raw vs. non-raw, trailing space, or whether ``dir/`` gets a slash;
-* anything for typed text that the real CompletionContextParser does not analyse as "second word
-  of the command ``rec``, opened with exactly this quote style, whose value - after the path
-  completer's own unquoting (_path_from_partial_string) - is exactly the intended proper prefix of
-  the name" (a lone ``#`` starts a comment, ``a'`` is the word ``a`` glued to an opened string, ...:
-  those are different situations than "the user typed a prefix of this name");
+* anything for typed text that the real CompletionContextParser does not analyse as "cursor at the
+  end of the second word of the command ``rec``" or whose value - after the path completer's own
+  unquoting (check_for_partial_string / _path_from_partial_string applied to the whole word) - is
+  not a prefix of the name (a lone ``#`` starts a comment, ``a'`` is the word ``a`` glued to an opened
+  string of which only the string part is completed, ...: those are different situations than "the
+  user typed a prefix of this name"); the quote style used in keys is the one the analyser reports;
 * part 2: line continuations (backslash-newline) may be elided from prefix / suffix - this is the
   documented, tested behaviour; the comparison is made modulo elision, trying every reading;
-* part 2: which kind of context (command / python / none) is returned.
+* part 2: which kind of context (command / python / none) is returned;
+* part 2: that prefix + suffix span the whole word is only judged where "word" is unambiguous (no IO
+  redirect characters, no comment before the cursor, no line continuation in the text).
 """
 
 import collections
@@ -156,40 +159,43 @@ class _Worker:
         signal.signal(signal.SIGALRM, _alarm)
 
     # -- the situation the property talks about -------------------------------------------------
-    def admit(self, line, cursor, style, p, closer):
-        """The real analyser + the completer's own unquoting say: the user is typing the second word
-        of `rec ...`, opened with `style`, and what was typed so far means exactly `p`.
-        (A pure function of its arguments - independent of the directory - hence cached.)"""
-        k = (line, cursor, style, p, closer)
-        r = self._admit_cache.get(k)
-        if r is None:
-            r = self._admit_cache[k] = self._admit(line, cursor, style, p, closer)
-        return r
+    def admit(self, line, cursor, closer):
+        """How the REAL code reads the typed text, or None if this is not the situation the property
+        talks about.  Admitted: the real analyser says the cursor is at the end of the second word of
+        `rec ...` (nothing after it but, optionally, the closing quote `closer`), the whole typed word
+        is that argument's prefix, and the path completer's own partial-string detection
+        (check_for_partial_string / _path_from_partial_string) reads the WHOLE word - not a string glued
+        to a bare word such as `a'` - as the value `unq`.  Returns (opening quote as analysed, unq); the
+        caller admits the case when `unq` is a prefix of the file name.  A pure function of its
+        arguments (independent of the directory), hence cached."""
+        k = (line, cursor, closer)
+        if k not in self._admit_cache:
+            self._admit_cache[k] = self._admit(line, cursor, closer)
+        return self._admit_cache[k]
 
-    def _admit(self, line, cursor, style, p, closer):
+    def _admit(self, line, cursor, closer):
         from xonsh.completers.path import _path_from_partial_string
         from xonsh.parsers.completion_context import CommandArg
+        from xonsh.tools import check_for_partial_string
 
         ctx = self.completer.parse(line, cursor)
         if ctx is None or ctx.command is None:
-            return False
+            return None
         cmd = ctx.command
         if cmd.arg_index != 1 or cmd.args != (CommandArg("rec"),):
-            return False
-        if cmd.subcmd_opening or cmd.suffix or cmd.opening_quote != style:
-            return False
-        if closer:
-            if cmd.closing_quote != closer or cmd.is_after_closing_quote:
-                return False
-        elif cmd.closing_quote:
-            return False
+            return None
+        if cmd.subcmd_opening or cmd.suffix or cmd.is_after_closing_quote:
+            return None
+        if cmd.closing_quote != closer:
+            return None
         raw = cmd.raw_prefix
-        if line[:cursor] != "rec " + raw:
-            return False
-        probe = raw + closer
-        got = _path_from_partial_string(probe, len(raw))
+        if line[:cursor] != "rec " + raw or line[cursor:] != closer:
+            return None
+        if check_for_partial_string(raw)[0] not in (0, None):
+            return None  # a string that starts in the middle of the word: `a'...` completes the string part only
+        got = _path_from_partial_string(raw + closer, len(raw))
         unq = got[1] if got is not None else raw
-        return unq == p
+        return (cmd.opening_quote, unq)
 
     def completions(self, line, cursor):
         """Exactly the call PromptToolkitCompleter.get_completions makes (expand_alias leaves a
@@ -341,13 +347,15 @@ def check_name(name):
         try:
             seen_lines = set()
             exec_cache = {}
-            for style, closed, p, how, line, cursor in cases_for(name):
+            for gstyle, closed, p, how, line, cursor in cases_for(name):
                 res["generated"] += 1
                 if (line, cursor) in seen_lines:
                     continue
                 seen_lines.add((line, cursor))
-                if not w.admit(line, cursor, style, p, _closer(style) if closed else ""):
+                adm = w.admit(line, cursor, _closer(gstyle) if closed else "")
+                if adm is None or not name.startswith(adm[1]):
                     continue
+                style, p = adm  # as the real analyser / completer read the typed text
                 res["admitted"] += 1
                 comps = w.completions(line, cursor)
                 if not comps:
@@ -536,6 +544,20 @@ def _p2_class(text, cursor, bad):
         # between the backslash and the newline is placed two characters too far to the right
         if analyse(text, cursor + 1) is None and analyse(text, cursor - 1) is None:
             return "cursor-inside-line-continuation"
+    if clause in ("command-prefix", "command-suffix") and LC not in text:
+        # cursor strictly inside a three-character closing quote: handle_command_arg's "inside the
+        # closing quote" branch tests `>= len(opening + value + closing)` and is never taken, so the
+        # cursor is reported as inside the string, before a complete closing quote.  Repair transform:
+        # with the cursor at the start of that closing quote the case passes.
+        try:
+            c2 = _P2.parse(text, cursor)
+        except BaseException:  # noqa: BLE001
+            c2 = None
+        cq = c2.command.closing_quote if c2 is not None and c2.command is not None else ""
+        if len(cq) == 3 and not c2.command.is_after_closing_quote:
+            for k in (1, 2):
+                if cursor - k >= 0 and text[cursor - k : cursor - k + 3] == cq and analyse(text, cursor - k) is None:
+                    return "cursor-inside-triple-closing-quote"
     if clause == "command-prefix" and LC in text[:cursor]:
         # cursor strictly inside a sub-expression opener (`$(`, `![`, `@$(` ...) glued to a word that
         # contains an elided continuation: handle_command_arg falls back to `cursor - span.start`,
@@ -629,7 +651,7 @@ def run(ctx):
         for k in ("generated", "admitted", "no_completion", "completions", "execs", "failing"):
             tot[k] += r[k]
         fails.extend(r["fails"])
-    dump = os.environ.get("XV_C18_DUMP")
+    dump = os.environ.get("XV_C18_DUMP")  # debugging aid: all first-of-class failing records as JSON
     if dump:
         with open(dump, "w") as f:
             json.dump(fails, f, indent=0)
@@ -711,7 +733,7 @@ def run(ctx):
         rule=(
             f"part 1: all {len(names)} names of length <= {maxlen} over {len(ALPHA1)} symbols (+{len(KEYWORD_NAMES)} keyword names) x {{file, dir}} x "
             f"{len(STYLES)} opening-quote styles x every proper typed prefix (literal and backslash-escaped spelling) x {{no closing quote, closing quote after the cursor}}; "
-            "a case is admitted when the real CompletionContextParser + the completer's own unquoting read the typed text as exactly that prefix; every completion returned by the real "
+            "a case is admitted when the real CompletionContextParser analyses the cursor as the end of the second word of the command and the completer's own partial-string unquoting reads the whole typed word as a prefix of the name; every completion returned by the real "
             "Completer.complete (path completer only) is spliced and executed; non-trivial = distinct (name, kind, spliced line) executions that reached the argv comparison. "
             f"part 2: all strings of length <= {p2len} over {len(ALPHA2)} symbols"
             + (f" and all strings of length 6 over {len(ALPHA2_REDUCED)} symbols" if ctx.thorough else "")
@@ -755,9 +777,10 @@ def replay(rec):
     w.make(name, kind)
     rc = 0
     try:
-        ok = w.admit(line, cursor, case["style"], case["typed_prefix"], _closer(case["style"]) if case["closed"] else "")
+        adm = w.admit(line, cursor, line[cursor:])
         print("name    :", repr(name), f"({kind})")
-        print("line    :", repr(line), "cursor:", cursor, "admitted:", ok)
+        print("line    :", repr(line), "cursor:", cursor, "read by the analyser/completer as (opening quote, typed value):", adm,
+              "admitted:", adm is not None and name.startswith(adm[1]))
         for text, plen in w.completions(line, cursor):
             new = w.splice(line, cursor, text, plen)
             obs = w.execute(new, name)
